@@ -103,6 +103,32 @@ def number(r, label, value, signed, width, groups=("PURE",), cls="Number"):
     return AObj(cls, {"value": value, "value_type": mk_vt("t" + label, signed, width, groups), "name": label, "isa_name": None, "inlined": True, "reads": 0}, label=label)
 
 
+def constant_condition_selection(ctx):
+    """a constant ?: condition selects the then-arm exactly when it is non-zero (any non-zero value, also after a conversion)"""
+    idx = get_index(ctx.env)
+    r = Runner(idx, keep_real=("simplify_conditional_expr",))
+    from .c05 import origin
+
+    for val, exp in ((1, "items[1]"), (0, "items[2]"), (7, "items[1]"), (2, "items[1]"), (4, "items[1]"), (-2, "items[1]"), (0x100000000, "items[1]")):
+        fi, outs = r.run("simplify_conditional_expr", lambda val=val: [[number(r, "c", val, True, 32), r.pure("items[1]"), r.pure("items[2]")]], args_list=True)
+        ctx.check(f"constant condition {val} selects", bool(outs) and all(origin(lab(o.value)) == exp for o in outs), exp, str([lab(o.value) for o in outs]), fn_where(idx, fi))
+    fi, outs = r.run("simplify_conditional_expr", lambda: [[r.pure("c"), r.pure("items[1]"), r.pure("items[2]")]], args_list=True)
+    ctx.check("non-constant condition is not folded", [o.value for o in outs] == [None], "None", str([lab(o.value) for o in outs]), fn_where(idx, fi))
+    # a converted constant as condition: its truth is that of the CONVERTED value ((uint8_t)0x100 is 0) - folding by the literal below
+    # the cast selects the wrong arm; not folding at all is fine
+    for lit, ct, truth in ((0x100, (False, 8), False), (0x30000, (True, 16), False), (0x101, (False, 8), True), (0x100000000, (False, 32), False)):
+        r2 = Runner(idx, keep_real=("simplify_conditional_expr",))
+
+        def cargs(lit=lit, ct=ct):
+            inner = number(r2, "lit", lit, True, 64)
+            cast = AObj("Cast", {"ops": [inner], "value_type": mk_vt("tcast", ct[0], ct[1]), "name": "cast_1", "isa_name": None, "inlined": True, "reads": 0}, label="cast")
+            return [[cast, r2.pure("items[1]"), r2.pure("items[2]")]]
+        fi, outs = r2.run("simplify_conditional_expr", cargs, args_list=True)
+        sel = sorted({"not folded" if o.value is None else origin(lab(o.value)) if o.kind != "raise" else "RAISE" for o in outs})
+        okset = {"not folded", "RAISE", "items[1]" if truth else "items[2]"}
+        ctx.check(f"condition ({'u' if not ct[0] else 's'}{ct[1]}){hex(lit)}", bool(sel) and set(sel) <= okset, f"not folded, or the {'then' if truth else 'else'} arm", str(sel), fn_where(idx, fi))
+
+
 @rule("R09.2", "C09", "folders agree with their run-time twins: same type rule, C operator semantics, value reduced to its type; comparisons use the converted operands", min_instances=10)
 def r09_2(ctx):
     idx = get_index(ctx.env)
@@ -222,28 +248,7 @@ def r09_2(ctx):
     node_classes = set(idx.subclasses("Pure")) | set(idx.subclasses("Effect"))
     truthy = sorted(f"{c}.{m}" for c in node_classes if c in idx.classes for m in ("__bool__", "__len__") if m in idx.classes[c].methods)
     ctx.check("IR nodes have no truth value of their own (__bool__ / __len__)", not truthy, "none defined", str(truthy), "rzilcompiler/Transformer/Pures/Pure.py")
-    # --- constant condition of ?:
-    r = Runner(idx, keep_real=("simplify_conditional_expr",))
-    from .c05 import origin
-
-    for val, exp in ((1, "items[1]"), (0, "items[2]"), (7, "items[1]"), (2, "items[1]"), (4, "items[1]"), (-2, "items[1]"), (0x100000000, "items[1]")):
-        fi, outs = r.run("simplify_conditional_expr", lambda val=val: [[number(r, "c", val, True, 32), r.pure("items[1]"), r.pure("items[2]")]], args_list=True)
-        ctx.check(f"constant condition {val} selects", bool(outs) and all(origin(lab(o.value)) == exp for o in outs), exp, str([lab(o.value) for o in outs]), fn_where(idx, fi))
-    fi, outs = r.run("simplify_conditional_expr", lambda: [[r.pure("c"), r.pure("items[1]"), r.pure("items[2]")]], args_list=True)
-    ctx.check("non-constant condition is not folded", [o.value for o in outs] == [None], "None", str([lab(o.value) for o in outs]), fn_where(idx, fi))
-    # a converted constant as condition: its truth is that of the CONVERTED value ((uint8_t)0x100 is 0) - folding by the literal below
-    # the cast selects the wrong arm; not folding at all is fine
-    for lit, ct, truth in ((0x100, (False, 8), False), (0x30000, (True, 16), False), (0x101, (False, 8), True), (0x100000000, (False, 32), False)):
-        r2 = Runner(idx, keep_real=("simplify_conditional_expr",))
-
-        def cargs(lit=lit, ct=ct):
-            inner = number(r2, "lit", lit, True, 64)
-            cast = AObj("Cast", {"ops": [inner], "value_type": mk_vt("tcast", ct[0], ct[1]), "name": "cast_1", "isa_name": None, "inlined": True, "reads": 0}, label="cast")
-            return [[cast, r2.pure("items[1]"), r2.pure("items[2]")]]
-        fi, outs = r2.run("simplify_conditional_expr", cargs, args_list=True)
-        sel = sorted({"not folded" if o.value is None else origin(lab(o.value)) if o.kind != "raise" else "RAISE" for o in outs})
-        okset = {"not folded", "RAISE", "items[1]" if truth else "items[2]"}
-        ctx.check(f"condition ({'u' if not ct[0] else 's'}{ct[1]}){hex(lit)}", bool(sel) and set(sel) <= okset, f"not folded, or the {'then' if truth else 'else'} arm", str(sel), fn_where(idx, fi))
+    constant_condition_selection(ctx)
 
 
 @rule("R09.7", "C09", "the run-time twin of the division folders is the C operation: the folders compute signed quotients and remainders for signed operands, so must the emitted opcode", min_instances=4)
